@@ -7,6 +7,7 @@ import (
 	"errors"
 	"io"
 	"net/http"
+	"net/url"
 
 	"github.com/openebs/jiva/replica/rest"
 )
@@ -27,24 +28,66 @@ var (
 	zzReqs                int
 	zzSent                interface{}
 	zzEncoded             int
-	zzOutcome             int // 0 transport error, 1 = 200, 2 = 500, 3 = 404, 4 = 201
+	zzOutcome             int // outcome of the first request: 0 transport error, 1 = 200, 2 = 500, 3 = 404, 4 = 201
 	zzDecodeFails         bool
 	zzClosed              int
 	zzTimeoutAtDo         int64
 	zzAnswer              rest.Replica
 	zzUsage               rest.VolUsage
+	// request bodies: an encoder fills its buffer, a request built over a buffer carries
+	// what is in it when it is sent, and sending drains the buffer
+	zzBufs  []*zzBuf
+	zzWires []zzWire
 )
 
-func zzNewRequest(method, url string, body io.Reader) (*http.Request, error) {
+type zzBuf struct {
+	w       interface{} // the io.Writer the encoder was created over
+	content interface{}
+	req     *http.Request
+}
+
+type zzWire struct {
+	method, url string
+	payload     interface{}
+	outcome     int
+}
+
+func zzNewRequest(method, u string, body io.Reader) (*http.Request, error) {
 	zzReqs++
-	zzReqMethod, zzReqURL = method, url
-	return &http.Request{Method: method, Header: http.Header{}}, nil
+	zzReqMethod, zzReqURL = method, u
+	pu, err := url.Parse(u)
+	if err != nil {
+		return nil, err
+	}
+	req := &http.Request{Method: method, Header: http.Header{}, URL: pu}
+	for _, b := range zzBufs {
+		if body != nil && b.w == interface{}(body) {
+			b.req = req
+		}
+	}
+	return req, nil
 }
 func zzHeaderAdd(h http.Header, k, v string) {}
 
 func zzClientDo(c *http.Client, req *http.Request) (*http.Response, error) {
 	zzTimeoutAtDo = int64(c.Timeout)
-	switch zzOutcome {
+	w := zzWire{method: req.Method, url: zzReqURL}
+	for _, b := range zzBufs {
+		if b.req == req {
+			w.payload = b.content
+			b.content = nil // the transport read the body to its end
+		}
+	}
+	w.outcome = zzOutcome
+	if len(zzWires) > 0 {
+		// a further request over the same connection pool has an outcome of its own
+		w.outcome = zzConcretize(zzChoice("outcome.again", 5))
+	}
+	if len(zzWires) >= 3 {
+		w.outcome = 0
+	}
+	zzWires = append(zzWires, w)
+	switch w.outcome {
 	case 0:
 		return nil, errors.New("zz: connection refused")
 	case 1:
@@ -57,10 +100,16 @@ func zzClientDo(c *http.Client, req *http.Request) (*http.Response, error) {
 	return &http.Response{StatusCode: 201, Status: "201 Created", Body: zzBody{&zzClosed}}, nil
 }
 
-func zzNewEncoder(w io.Writer) *json.Encoder { return &json.Encoder{} }
+func zzNewEncoder(w io.Writer) *json.Encoder {
+	zzBufs = append(zzBufs, &zzBuf{w: interface{}(w)})
+	return &json.Encoder{}
+}
 func zzEncode(e *json.Encoder, v interface{}) error {
 	zzEncoded++
 	zzSent = v
+	if len(zzBufs) > 0 {
+		zzBufs[len(zzBufs)-1].content = v
+	}
 	return nil
 }
 func zzNewDecoder(r io.Reader) *json.Decoder { return &json.Decoder{} }
@@ -85,6 +134,7 @@ func zzRemote() *Remote {
 // every action the controller sends: success is reported only for a 200 answer
 func ZZ_Env_RemoteAction() {
 	zzReqs, zzEncoded, zzClosed = 0, 0, 0
+	zzBufs, zzWires = nil, nil
 	zzOutcome = zzConcretize(zzChoice("outcome", 5))
 	r := zzRemote()
 	var err error
@@ -117,18 +167,32 @@ func ZZ_Env_RemoteAction() {
 		zzAssert(err != nil && zzReqs == 0, "env.remote.invalid-mode-sent-to-replica")
 		return
 	}
-	zzAssert(zzReqs == 1 && zzReqMethod == "POST", "env.remote.action-not-sent-as-one-POST")
-	zzAssert(zzReqURL == "http://h1:9502/v1/replicas/1?action="+action, "env.remote.wrong-action-url")
-	if zzOutcome == 1 {
+	// whatever was sent went to the action's URL as a POST; the action is reported done
+	// only if a request that carried the action's input was answered 200, and an answer
+	// of 200 to such a request is not reported as a failure
+	zzAssert(len(zzWires) >= 1, "env.remote.action-not-sent")
+	delivered := false
+	for _, w := range zzWires {
+		zzAssert(w.method == "POST" && w.url == "http://h1:9502/v1/replicas/1?action="+action, "env.remote.wrong-action-url")
+		if w.outcome == 1 && (w.payload != nil || action == "open") {
+			delivered = true
+		}
+	}
+	last := zzWires[len(zzWires)-1]
+	if err == nil {
 		zzReach("env.remote.action-ok")
-		zzAssert(err == nil, "env.remote.successful-action-reported-as-failure")
+		zzAssert(delivered, "env.remote.action-reported-done-without-a-200-to-a-request-carrying-its-input")
 	} else {
 		zzReach("env.remote.action-failed")
-		zzAssert(err != nil, "env.remote.failed-action-reported-as-success")
+		zzAssert(!(last.outcome == 1 && (last.payload != nil || action == "open")), "env.remote.successful-action-reported-as-failure")
 	}
-	if zzOutcome != 0 {
-		zzAssert(zzClosed == 1, "env.remote.response-body-not-closed")
+	answered := 0
+	for _, w := range zzWires {
+		if w.outcome != 0 {
+			answered++
+		}
 	}
+	zzAssert(zzClosed == answered, "env.remote.response-body-not-closed")
 	if action == "open" {
 		zzAssert(zzTimeoutAtDo == 0, "env.remote.open-sent-with-a-timeout")
 	}
@@ -137,6 +201,7 @@ func ZZ_Env_RemoteAction() {
 // status query: a replica description is returned only for a 200 answer that decoded
 func ZZ_Env_RemoteInfo() {
 	zzReqs, zzClosed = 0, 0
+	zzBufs, zzWires = nil, nil
 	zzOutcome = zzConcretize(zzChoice("outcome", 5))
 	zzDecodeFails = zzNondetBool("decode.fails")
 	zzAnswer = rest.Replica{}
